@@ -139,7 +139,7 @@ Print Assumptions C14_partial_coarse_fragment.
 From CGV Require Import Reader.ReaderImpl Reader.Grammar Reader.Lin Reader.ReaderCheck
      Resolve.GraphOps Resolve.Pipeline Resolve.CopyProofs
      Frag.NDict Frag.StripImpl Frag.FragText Hydro.Hydrogens Hydro.Fragments
-     Hydro.SquashDefs Hydro.HydroDefs Resolve.PipelineFull Compose.CutModel Compose.CutHydrogens Reader.ReaderUnit Dialect.ReturnedAnnot Dialect.BaseAnnotUnits Dialect.MachineAnnot Dialect.BaseAnnot Dialect.FragAnnot Dialect.CopyAnnot Dialect.TemplateAnnot.
+     Hydro.SquashDefs Hydro.HydroDefs Resolve.PipelineFull Compose.CutModel Compose.CutHydrogens Reader.ReaderUnit Dialect.ReturnedAnnot Dialect.ReturnedCar Dialect.ReturnedExample Dialect.BaseAnnotUnits Dialect.MachineAnnot Dialect.BaseAnnot Dialect.FragAnnot Dialect.CopyAnnot Dialect.TemplateAnnot.
 Open Scope Z_scope.
 
 (** ---- base graph ---- *)
@@ -290,6 +290,49 @@ Theorem C14_annotation_reaches_returned_graph_full : forall C, wf_cut C -> foral
       nth_error xs i = Some x -> gfind (Z.of_nat i) T = Some n -> returned_key key ->
       node_get (fo_mol fo) (map_get m (phi C x)) key = aget key (na n).
 Proof. exact annotation_reaches_returned_graph_full. Qed.
+(** ... and for ANY recorded transcript of pysmiles' correct_aromatic_rings: the model (Hydrogens.rebuild_h_atoms)
+    accepts a transcript only under Hydro's contract, and that contract says that the correction leaves every node
+    attribute except `aromatic` alone ([C14_transcript_contract_leaves_alone]); so one all-atom resolve(), end to end,
+    returns a graph in which every copy of template atom i has exactly the template's value under every key that is
+    not written by a step (fragid, mapping, ez_isomer_atoms, hcount, atomname, ez_isomer, ez_isomer_class, aromatic).
+    The only extra hypothesis: the attribute lists of the molecule handed to rebuild_h_atoms are dicts (distinct keys) *)
+Theorem C14_transcript_contract_leaves_alone : forall m2 g1, Hydrogens.transcript_contract m2 g1 = true -> dicts m2 ->
+  node_keys g1 = node_keys m2 /\ (forall y x, has_edge g1 y x = has_edge m2 y x) /\
+  (forall k key, key <> S "aromatic" -> node_get g1 k key = node_get m2 k key).
+Proof. intros m2 g1 H D. destruct (contract_car_ok m2 g1 H D) as [A B0 C0]. auto. Qed.
+Theorem C14_annotation_reaches_returned_graph_any_transcript : forall C, wf_cut C -> forall fd, templates_ok C fd -> wf_dict fd ->
+  forall B, is_base C B ->
+  (forall x, In x (flat C) ->
+     (exists e, aget (S "element") (payload C x) = Some e) /\ (exists q, aget (S "charge") (payload C x) = Some q) /\
+     (exists h, aget (S "hcount") (payload C x) = Some (VInt h)) /\ Hydrogens.is_H (payload C x) = false) ->
+  forall prev g1 fo, meta_of prev = B -> resolve_step_full true true fd prev (Some g1) = Ok fo -> dicts (fo_m3 fo) ->
+  exists m, sort_mapping (fo_m4 fo) = Ok m /\ SortGraphProofs.inj_on (map_get m) (node_keys (fo_m4 fo)) /\
+    forall p name xs T i x n key,
+      nth_error (c_parts C) p = Some (name, xs) -> fd_get name fd = Some T ->
+      nth_error xs i = Some x -> gfind (Z.of_nat i) T = Some n -> returned_key key -> key <> S "aromatic" ->
+      node_get (fo_mol fo) (map_get m (phi C x)) key = aget key (na n).
+Proof. exact annotation_reaches_returned_graph_any_car. Qed.
+(** non-vacuity: {[#A][#A]}.{#A=C[C;0.5;x=R;k=v][$]} as a cut; the hypotheses hold, the step returns, the two copies
+    of atom 1 (returned keys 1, 8) carry weight 0.5 / chiral R / k = v, the two copies of atom 0 (keys 0, 7) do not *)
+Example C14_returned_annotation_nonvacuous :
+  wf_cut exA /\ templates_ok exA exA_fd /\ is_base exA (base_of exA) /\ wf_dict exA_fd /\
+  (forall x, In x (flat exA) ->
+     (exists e, aget (S "element") (payload exA x) = Some e) /\ (exists q, aget (S "charge") (payload exA x) = Some q) /\
+     (exists h, aget (S "hcount") (payload exA x) = Some (VInt h)) /\ Hydrogens.is_H (payload exA x) = false) /\
+  meta_of (base_of exA) = base_of exA /\
+  match exA_m3 with
+  | Some m3 =>
+      dictsb m3 = true /\
+      match resolve_step_full true true exA_fd (base_of exA) (Some m3) with
+      | Ok fo => fo_m3 fo = m3 /\
+          map (fun k => (node_get (fo_mol fo) k (S "weight"), node_get (fo_mol fo) k (S "chiral"), node_get (fo_mol fo) k (S "k"))) [0; 1; 7; 8]
+          = [(Some (VInt 1), None, None); (Some (VFlt (S "0.5")), Some (VStr (S "R")), Some (VStr (S "v")));
+             (Some (VInt 1), None, None); (Some (VFlt (S "0.5")), Some (VStr (S "R")), Some (VStr (S "v")))]
+      | Err _ => False
+      end
+  | None => False
+  end.
+Proof. exact returned_annotation_example. Qed.
 (** the same at the end of the instantiation loop, for coarse and all-atom levels alike *)
 Theorem C14_disconnected_copy_exact : forall C, wf_cut C -> forall fd, templates_ok C fd -> wf_dict fd ->
   forall B, is_base C B -> forall m1 fg1 p name xs T i x n key,
@@ -321,3 +364,5 @@ Print Assumptions C14_hydrogens_do_not_overwrite.
 Print Assumptions C14_annotation_reaches_returned_graph.
 Print Assumptions C14_annotation_reaches_returned_graph_full.
 Print Assumptions C14_disconnected_copy_exact.
+Print Assumptions C14_transcript_contract_leaves_alone.
+Print Assumptions C14_annotation_reaches_returned_graph_any_transcript.
